@@ -407,10 +407,11 @@ def register(gen, T):
             out.append(",\n".join(lines) + "]\n\n")
         p13 = normws(fn_body(ex, "expr_p13"))
         tr = normws(fn_body(fn_body(ex, "expr_p13"), "ternary_right"))
-        if not re.search(r'parse_token\(Token::QuestionMark\)\(input\)\?; let \(input, left\) = expr_p13\(input, st\)\?; '
-                         r'let \(input, _\) = parse_token\(Token::Colon\)\(input\)\?; let \(input, right\) = expr_p13\(input, st\)\?;', tr) \
-           or "let (input, main) = expr_p12(input, st)?;" not in p13 or "_ => Ok((input, main))" not in p13:
-            raise ExtractError("expr_p13 no longer has the shape p12 [? p13 : p13] with fallback to p12")
+        tm = re.search(r'parse_token\(Token::QuestionMark\)\(input\)\?; let \(input, left\) = expr_p(\d+)\(input, st\)\?; '
+                       r'let \(input, _\) = parse_token\(Token::Colon\)\(input\)\?; let \(input, right\) = expr_p(\d+)\(input, st\)\?;', tr)
+        if not tm or "let (input, main) = expr_p12(input, st)?;" not in p13 or "_ => Ok((input, main))" not in p13:
+            raise ExtractError("expr_p13 no longer has the shape p12 [? pM : pL] with fallback to p12")
+        tern_mid, tern_last = int(tm.group(1)), int(tm.group(2))
         p14 = normws(fn_body(ex, "expr_p14"))
         if "_ => Ok((input, main))" not in p14:
             raise ExtractError("expr_p14 lost its fallback")
@@ -421,6 +422,8 @@ def register(gen, T):
                    "def parseOpAt (lvl : Nat) (term : Terminator) (ts : List Tok) : Option (BinOp × List Tok) :=\n  match lvl with\n" +
                    "".join(f"  | {n} => parseOp{n} term ts\n" for n in sorted(level_fns)) + "  | _ => none\n\n")
         out.append("def leftAssocLevels : List Nat := " + T.lean_list(str(n) for n in sorted(level_fns) if n != 14) + "\n"
-                   "def ternaryLevel : Nat := 13\ndef assignLevel : Nat := 14\ndef prefixLevel : Nat := 2\ndef postfixLevel : Nat := 1\n")
+                   "def ternaryLevel : Nat := 13\ndef assignLevel : Nat := 14\ndef prefixLevel : Nat := 2\ndef postfixLevel : Nat := 1\n"
+                   f"/-- levels at which `ternary_right` reads the operand between `?` and `:` and the one after `:` -/\n"
+                   f"def ternMiddleLevel : Nat := {tern_mid}\ndef ternLastLevel : Nat := {tern_last}\n")
         out.append("\nend RsslVerif.Gen.ParseTables\n")
         return "".join(out)
